@@ -289,9 +289,10 @@ fn run_case(rt: &tokio::runtime::Runtime, case: &Value) -> Obs {
             }
             let after = sbx.snapshot();
             if verdict == V_OTHER {
+                verdict = V_OK; // accepted by the resolver, refused by the operating system
                 note = "os-error".into();
             }
-            st.check(&format!("{kind}/create"), &before, &after, verdict != V_OK && verdict != V_OTHER, "");
+            st.check(&format!("{kind}/create"), &before, &after, verdict != V_OK, "");
             if let Some(fl) = exists_flag {
                 let really = sbx.root.join(&out).exists();
                 if fl != really {
@@ -355,6 +356,7 @@ fn run_case(rt: &tokio::runtime::Runtime, case: &Value) -> Obs {
                 note = "os-error".into();
             }
             if ck == V_OTHER {
+                ck = V_OK; // the path was accepted; the operating system refused later (a directory, a long name)
                 note = "ck-os-error".into();
             }
             verdict = ck * 10 + tool;
@@ -396,7 +398,7 @@ fn run_case(rt: &tokio::runtime::Runtime, case: &Value) -> Obs {
     if must_refuse(&kind, &raw, &root_s) {
         let refused = match model_kind(&kind) {
             4 | 5 => verdict % 10 != V_OK,
-            _ => verdict != V_OK && !(verdict == V_OTHER && !note.is_empty()),
+            _ => verdict != V_OK,
         };
         if !refused {
             st.viol.push((format!("{kind}: '{}' is absolute or has a parent-directory segment and was not refused", short(&raw)), "not_refused".into()));
